@@ -54,7 +54,7 @@ impl Verdict {
 }
 
 /// A generated case that can be written to / read from a replay file.
-pub trait Case: Debug + Clone + 'static {
+pub trait Case: Debug + Clone + Send + 'static {
     fn to_json(&self) -> J;
     fn from_json(j: &J) -> Result<Self, String>
     where
@@ -428,9 +428,18 @@ impl Ctx {
         let merged: Mutex<(Rec, Vec<ViolationRec>)> = Mutex::new((Rec::new(), vec![]));
         let prop = self.prop;
         let seed = self.seed;
+        let tier = self.tier;
+        // watchdog: the case each shard is executing right now, and since when
+        let inflight: Vec<Mutex<Option<(Instant, C)>>> = (0..SHARDS).map(|_| Mutex::new(None)).collect();
+        let finished = std::sync::atomic::AtomicUsize::new(0);
         std::thread::scope(|s| {
+            {
+                let (inflight, finished) = (&inflight, &finished);
+                s.spawn(move || watchdog(prop, kind, seed, tier, inflight, finished));
+            }
             for shard in 0..SHARDS {
                 let merged = &merged;
+                let (inflight, finished) = (&inflight, &finished);
                 std::thread::Builder::new()
                     .stack_size(64 << 20)
                     .spawn_scoped(s, move || {
@@ -448,6 +457,7 @@ impl Ctx {
                         let result = runner.run(&strat, |c| {
                             let mut r = rec.borrow_mut();
                             r.eval();
+                            *inflight[shard].lock().unwrap() = Some((Instant::now(), c.clone()));
                             let v = match guarded(|| check(&c, &mut r)) {
                                 Ok(v) => v,
                                 Err(p) => Verdict::fail(
@@ -455,6 +465,7 @@ impl Ctx {
                                     format!("uncaught panic in check: {} at {}", p.msg, p.location),
                                 ),
                             };
+                            *inflight[shard].lock().unwrap() = None;
                             match v {
                                 Verdict::Pass => Ok(()),
                                 Verdict::Fail { sig, msg } => {
@@ -504,6 +515,7 @@ impl Ctx {
                         let mut m = merged.lock().unwrap();
                         m.0.merge(rec.into_inner());
                         m.1.extend(viol);
+                        finished.fetch_add(1, std::sync::atomic::Ordering::SeqCst);
                     })
                     .expect("spawn shard");
             }
@@ -670,6 +682,66 @@ impl Ctx {
             2
         } else {
             0
+        }
+    }
+}
+
+/// Wall-clock watchdog for hangs that the fuel / budget oracles cannot see (a loop that never
+/// reads a token or calls the resolver). A case in flight for more than HANG_SECS is written out
+/// and re-run alone in a child process; only if it does not finish there either is it reported
+/// (the stuck thread cannot be stopped, so the process ends here with the VIOLATION line).
+fn watchdog<C: Case>(prop: &'static str, kind: &'static str, seed: u64, tier: Tier, inflight: &[Mutex<Option<(Instant, C)>>], finished: &std::sync::atomic::AtomicUsize) {
+    const HANG_SECS: u64 = 25;
+    let mut strikes = 0;
+    loop {
+        for _ in 0..10 {
+            std::thread::sleep(std::time::Duration::from_millis(100));
+            if finished.load(std::sync::atomic::Ordering::SeqCst) >= SHARDS {
+                return;
+            }
+        }
+        for slot in inflight.iter() {
+            let stuck: Option<C> = {
+                let g = slot.lock().unwrap();
+                match &*g {
+                    Some((since, c)) if since.elapsed().as_secs() >= HANG_SECS => Some(c.clone()),
+                    _ => None,
+                }
+            };
+            let Some(c) = stuck else { continue };
+            let root = verif_root();
+            let dir = root.join("violations");
+            let _ = std::fs::create_dir_all(&dir);
+            let case = c.to_json();
+            let path = dir.join(format!("{}-{}-hang-{:016x}.json", prop, sanitize_name(kind), key_of(&case.to_string())));
+            let doc = json!({"property": prop, "kind": kind, "signature": format!("{prop}:hang:watchdog"), "message": "case did not finish", "case": case, "seed": seed, "tier": tier.name(), "found_by": "hv watchdog"});
+            let _ = std::fs::write(&path, serde_json::to_string_pretty(&doc).unwrap());
+            // confirm alone in a fresh process
+            let r = crate::isolate::run_probe(&["replay-file".to_string(), prop.to_string(), path.display().to_string()], None, std::time::Duration::from_secs(90), &[]);
+            if r.status == crate::isolate::ProbeStatus::Timeout {
+                println!("VIOLATION property={} replay={}", prop, path.display());
+                println!("  kind={kind} signature={prop}:hang:watchdog");
+                println!("  the case did not finish within {HANG_SECS} s in the run and within 90 s alone in a fresh process (non-termination)");
+                let ev = json!({"property_id": prop, "tier": tier.name(), "seed": seed, "level": "exploration",
+                    "coverage": {"evaluations": 1, "distinct_nontrivial": 0, "rule": "run ended by the hang watchdog", "samples": [doc["case"].to_string()]},
+                    "wall_s": 0.0, "violations": 1});
+                let _ = std::fs::create_dir_all(root.join("evidence"));
+                let _ = std::fs::write(root.join("evidence").join(format!("{prop}.json")), serde_json::to_string_pretty(&ev).unwrap());
+                std::process::exit(1);
+            }
+            // finished alone: slow, not stuck. Give the run more time, but not forever.
+            let _ = std::fs::remove_file(&path);
+            strikes += 1;
+            {
+                let mut g = slot.lock().unwrap();
+                if let Some((_, c)) = g.take() {
+                    *g = Some((Instant::now(), c));
+                }
+            }
+            if strikes >= 6 {
+                eprintln!("INCONCLUSIVE: a case of {prop}/{kind} keeps exceeding {HANG_SECS} s in the run but finishes alone");
+                std::process::exit(2);
+            }
         }
     }
 }
